@@ -20,6 +20,7 @@ formulas evaluated in double precision outside a tolerance band) on seeded off-l
 """
 from __future__ import annotations
 
+import hashlib
 import io
 import json
 import math
@@ -147,9 +148,13 @@ class Replayer:
         self.reason_mismatch = 0
         self.sun_classes = {"full": 0, "umbra": 0, "range": 0}
         self.sun_partial = 0
+        self.branches = {}
+        self.sample = {}
 
     def row(self, row):
         kind = row[0]
+        key = f"{kind}:{row[6]}:{'undecided' if (row[5] == 0 and kind != 'sun') else row[4]}"
+        self.branches[key] = self.branches.get(key, 0) + 1
         getattr(self, "do_" + kind)(row)
         self.n[kind] += 1
 
@@ -157,10 +162,12 @@ class Replayer:
         kind = row[0]
         if nontrivial:
             self.nontrivial[kind] += 1
-        k = self.n[kind]
-        self.ctx.case((kind, row[1], row[2], row[3]), nontrivial=nontrivial,
-                      sample={"kind": kind, "shape": row[1], "from": row[2], "to": row[3], "expected": row[4],
-                              "margin": row[5], "why": row[6]} if (k == 777 and nontrivial) else None)
+        self.ctx.case((kind, row[1], row[2], row[3]), nontrivial=nontrivial)
+        if nontrivial and row[5] != 0:
+            # one sample per kind, chosen independently of the order in which TLC's workers emit
+            h = hashlib.blake2b(repr(row).encode(), digest_size=8).digest()
+            if kind not in self.sample or h < self.sample[kind][0]:
+                self.sample[kind] = (h, row)
 
     # ---- rectangular field of view
     def _rect_call(self, w, b, t):
@@ -220,8 +227,9 @@ class Replayer:
             self.ctx.violation("conicfov-mismatch", f"ConicFoV half angle {math.degrees(half):.3f} deg, SEZ directions {b}, {t}: "
                                f"expected {exp}, got {got}", {"row": row, "rotated_by": 0})
         # rotation about the vertical by a real angle (ConicRotationInvariant gives quarter turns)
-        if (self.n["conic"] % 4 == 0) or self.ctx.tier != "quick":
-            ang = ((self.n["conic"] * 0.6180339887498949) % 1.0) * 2 * math.pi
+        idx = b[0] * 7 + b[1] * 11 + b[2] * 13 + t[0] * 17 + t[1] * 19 + t[2] * 23 + p + q   # a function of the case only
+        if (idx % 4 == 0) or self.ctx.tier != "quick":
+            ang = ((idx * 0.6180339887498949) % 1.0) * 2 * math.pi
             self.twins += 1
             got2 = bool(fov.inFieldOfView(np.concatenate([rot_z(b3, ang), VEL]), np.concatenate([rot_z(t3, ang), -VEL])))
             if got2 != exp:
@@ -586,11 +594,14 @@ def run(ctx: Ctx):
     if min(rp.sun_classes.values()) == 0:
         raise tlc.MachineryError(f"Sun classes not all exercised: {rp.sun_classes}")
     ctx.traces_validated += sum(rp.n.values())
+    for k in ("rect", "azmask", "los", "conic", "limb", "sun"):
+        r = rp.sample[k][1]
+        ctx.samples.append({"kind": k, "shape": r[1], "from": r[2], "to": r[3], "expected": r[4], "margin": r[5], "why": r[6]})
     ctx.extra["tlc_plus_replay_wall_s"] = round(time.time() - t_start, 1)
-    skipped = relations(ctx, real, rng, 1500 if ctx.quick else 150000)
+    skipped = relations(ctx, real, rng, 1500 if ctx.quick else 60000)
     # TLC's workers emit in a different order each run: make the reported example per signature deterministic
-    ctx.violations.sort(key=lambda v: (v["signature"], json.dumps(v["replay"], sort_keys=True, default=str)))
-    ctx.extra.update(spec_cases_replayed=rp.n, undecided_margin_zero=rp.undecided, nontrivial_by_kind=rp.nontrivial,
+    ctx.violations.sort(key=lambda v: (v["signature"], "row" not in v["replay"], json.dumps(v["replay"], sort_keys=True, default=str)))
+    ctx.extra.update(spec_cases_replayed=rp.n, spec_cases_by_branch_and_expected=dict(sorted(rp.branches.items())), undecided_margin_zero=rp.undecided, nontrivial_by_kind=rp.nontrivial,
                      rotated_twins_replayed=rp.twins, sun_classes=rp.sun_classes, sun_partial_fractions_seen=rp.sun_partial,
                      mask_reason_differs_from_spec_branch=rp.reason_mismatch, off_lattice_relation_inputs_skipped_near_edge=skipped)
 
